@@ -31,6 +31,27 @@ struct RunResult {
 
 static PANIC_MSG: Mutex<Option<String>> = Mutex::new(None);
 
+static KEY_UPDATE_INTERVAL: std::sync::atomic::AtomicU64 = std::sync::atomic::AtomicU64::new(0);
+
+/// packets after which hook H1 makes a 1-RTT key due for an update (0 = hook not armed)
+pub fn key_update_interval() -> u64 {
+    KEY_UPDATE_INTERVAL.load(std::sync::atomic::Ordering::Relaxed)
+}
+
+/// Hook H1 reads the window once per process: arm it before the first connection exists.
+/// AES-GCM suites have a confidentiality limit of 2^23 packets; an update becomes due once
+/// `limit - window` packets were protected.
+fn arm_key_update_hook(seed: u64) {
+    // large enough that updates are several PTOs apart (RFC 9001 6.5) at the rates the
+    // profile allows; see profiles.rs "C15"
+    let interval = 500 + (seed % 8) * 150;
+    KEY_UPDATE_INTERVAL.store(interval, std::sync::atomic::Ordering::Relaxed);
+    std::env::set_var(
+        "S2N_QUIC_VERIF_KEY_UPDATE_WINDOW",
+        format!("{}", (1u64 << 23) - interval),
+    );
+}
+
 fn run_one(profile: &str, scenario_seed: u64, index: u64, verbose: bool) -> RunResult {
     let (params, extras) = profiles::make(profile, scenario_seed, index);
     let params = Arc::new(params);
@@ -150,6 +171,9 @@ fn main() {
         }
         *PANIC_MSG.lock().unwrap() = Some(msg);
     }));
+    if profile == "C15" {
+        arm_key_update_hook(arg_u64(&args, "hook-seed", arg_u64(&args, "seed", 1)));
+    }
     match cmd.as_str() {
         "run" => {
             let seed = arg_u64(&args, "seed", 1);
@@ -186,6 +210,7 @@ fn main() {
                     .map(|mut v| {
                         v.replay["scenario_seed"] = json!(sseed);
                         v.replay["index"] = json!(i);
+                        v.replay["hook_seed"] = json!(seed);
                         v
                     })
                     .collect();
